@@ -448,3 +448,10 @@ PROPS["C06"]["rule"] = PROPS["C06"]["rule"] + (" || engine driver under C06: eve
 PROPS["C20"]["files"] = list(dict.fromkeys(PROPS["C20"]["files"] + ["proofs/RenderProofs.v", "proofs/FlagProofs3.v"]))
 PROPS["C02"]["prop_files"] = PROPS["C02"].get("prop_files", [PROPS["C02"]["prop_file"]]) + ["props/C02walk.v"]
 PROPS["C02"]["files"] = list(dict.fromkeys(PROPS["C02"]["files"] + ["proofs/WalkProofs.v", "props/C02walk.v"]))
+
+# C18: static LOAD symbols of a DbResource asked repeatedly in different languages (resource/db.go DbFuncFor)
+PROPS["C18"]["drivers"] = PROPS["C18"]["drivers"] + [{"name": "staticload", "n_quick": 200, "n_thorough": 2000}]
+PROPS["C18"]["model_files"] = list(dict.fromkeys(PROPS["C18"]["model_files"] + ["model/ResModel.v", "corr/StaticCorr.v"]))
+PROPS["C18"]["rule"] = PROPS["C18"]["rule"] + (" || staticload: 3 corpus + n generated stores of DATATYPE_STATICLOAD entries (6 symbols, plain and '.txt' keys, translations nor/swa/fra at random) "
+    "and 3-12 lookups through ONE DbResource (FuncFor + call) under context languages {none, nor, swa, fra, eng}, half of them repeating the previous symbol in another language; "
+    "model ResModel.db_staticload threaded through the sequence; monitor: translation, else default entry, else the '.txt' forms, else not-found, judged from the entries alone")
